@@ -115,7 +115,13 @@ class Unit:
         text = apply_rules(text, self.rules, fired)
         text = apply_rules(text, getattr(f, "post", []), fired)
         if f.ret_ref:
-            text, n = re.subn(r"\breturn\s+([^;]+);", r"return &(\1);", text)
+            def ref_of(m):
+                e = m.group(1).strip()
+                t = re.match(r"^([^?:]+?)\s*\?\s*([^?:]+?)\s*:\s*([^?:]+)$", e)
+                if t:   # a reference to the result of a conditional expression: the reference of the selected operand
+                    return "return (%s) ? &(%s) : &(%s);" % (t.group(1), t.group(2).strip(), t.group(3).strip())
+                return "return &(%s);" % e
+            text, n = re.subn(r"\breturn\s+([^;]+);", ref_of, text)
             fired["D3.return-reference"] = fired.get("D3.return-reference", 0) + n
         text, f.loops = annotate_loops(text, f.name)
         for mf in f.must_fire:
